@@ -311,9 +311,8 @@ theorem headerStep_op (st : HState) (line : Bytes) (strip : Int) (st' : HState) 
     obtain ⟨rfl, rfl⟩ := ha
     rfl
   split at h
-  · obtain ⟨a, _, ha⟩ := Cost.map_ok h
-    simp only [Prod.mk.injEq] at ha
-    obtain ⟨rfl, rfl⟩ := ha
+  · simp only [Except.ok.injEq, Prod.mk.injEq] at h
+    obtain ⟨rfl, rfl⟩ := h
     rfl
   split at h
   · split at h
